@@ -473,7 +473,19 @@ def rule_invalidate(R):
     R.floor("invalidate/only-by-reset", n, 1, "stores to the generation counter")
 
 
+def rule_ack_lookup(R):
+    """an operation is complete once its final acknowledgement arrived: the acknowledgement finds the entry it names --
+    the lookup tests the identifier only, nothing that changes while the packet is in flight (send progress, the arena
+    offset, the DUP patch applied before every replay) -- and removes that entry (shared with C02 / C03 / C07)"""
+    f = R.f
+    outq.clause_removal_index(R, "ack/retained-removes-the-acknowledged-entry", outq.role_fn(f, "retained_removal"), "retained")
+    outq.clause_removal_index(R, "ack/release-removes-the-acknowledged-entry", outq.role_fn(f, "release_removal"), "pending_release")
+    outq.clause_removal_result(R, "ack/retained-removal-reports-removal", outq.role_fn(f, "retained_removal"), "retained")
+    outq.clause_removal_result(R, "ack/release-removal-reports-removal", outq.role_fn(f, "release_removal"), "pending_release")
+
+
 def run(R):
+    R.rule("ack", rule_ack_lookup)
     R.rule("status", rule_status)
     R.rule("handle", rule_handle)
     R.rule("final-ack", rule_final_ack)
